@@ -45,6 +45,16 @@ def handle (_ : Unit) (line : String) : Unit × String :=
         let r3 := loadHardwired "ns0" geometryIds (renameNs x.ns b x)
         ((), s!"own={joinWith "," r1} renamed={joinWith "," r2} hardwired={joinWith "," r3} fresh={!(occurs b x)}")
       | _ => ((), "bad-op")
+    | ["retag", a, b], some toks =>
+      -- Collada._retagNamespace(a, b): namespaces of all elements in document order afterwards
+      match build (2 * toks.length + 2) toks with
+      | some (x, []) => ((), joinWith "," (nsList (renameNs a b x)))
+      | _ => ((), "bad-op")
+    | ["nssave", dflt, parked], some toks =>
+      -- the namespace wrapper of Collada.save around a save that changes nothing
+      match build (2 * toks.length + 2) toks with
+      | some (x, []) => ((), joinWith "," (nsList (saveNs dflt parked id x)))
+      | _ => ((), "bad-op")
     | _, _ => ((), "bad-op")
   | _ => ((), "bad-op")
 
